@@ -415,6 +415,11 @@ class Fn:
             rec.update(kind=cmpk[0], a=cmpk[1], b=cmpk[2], truth=truth)
             return rec
         if truth is not None:
+            dty = (t['d'].get('pl') or {}).get('ty') or (t['d'].get('c') or {}).get('ty') or ''
+            if re.match(r'^(u|i)(8|16|32|64|128|size)$', dty) and e[0] != 'discr':
+                # `match n { 0 => .., _ => .. }` on an integer: the '0' edge is `n == 0`
+                rec.update(kind='Eq', a=norm(e), b=('const', '0', dty), truth=not truth)
+                return rec
             rec.update(kind='bool', a=e, truth=truth)
             return rec
         rec.update(kind='value', a=d, values=sorted(labels))
